@@ -36,10 +36,8 @@ def generate(prop, seed, tier):
     if rng.random() < 0.3 and not desc.get("file_stores"):
         # file-backed world: non-source stores are real PickleFileStore files; cut positions then include every
         # file operation (open / raw write / close / replace, before and after) of every store write
-        derived = ref.derived_stores(desc["world"])
         # (a store whose write also feeds a linked source store is kept in memory: its two effects are atomic there)
-        names = [n["store"] for n in desc["world"]["nodes"] if n.get("store") and n["kind"] != "src"
-                 and n["store"] not in derived and not desc["world"]["stores"][n["store"]].get("feeds")]
+        names = ref.file_backable(desc["world"], kinds=("call", "lit", "gather"))
         for nm in names:
             desc["world"]["stores"][nm]["flavour"] = "plain"
         if names:
@@ -88,6 +86,8 @@ def file_backed(desc, names, rng):
             touch.append(n["store"])
     desc["touch_stores"] = touch
     desc["file_siblings"] = rng.random() < 0.4
+    # store paths that are symbolic links (outputs kept on another disk): dangling until the first write
+    desc["file_symlinks"] = [nm for nm in sorted(names) if rng.random() < float(__import__("os").environ.get("VERIF_SYM", "0.25"))]
 
 
 def _prefix(desc):
